@@ -168,6 +168,9 @@ static void build_menus() {
 #if VX_PAYLOAD
 		if ((opt.mf & MF_PHASE_REQ) && (opt.mf & MF_PAYLOAD)) for (int k_i = 0, k = g_ids[0]; k_i < g_nids; ++k_i, k = g_ids[k_i < g_nids ? k_i : 0]) { f.push(Act{A_CHANGEW, static_cast<uint8_t>(k), 0, 1}); if (opt.mf & MF_PAYLOAD2) f.push(Act{A_CHANGEW, static_cast<uint8_t>(k), 0, 2}); }
 #endif
+#if VX_LOG
+		if (opt.mf & MF_LOG_TOGGLE) { f.push(Act{A_LOG_ON, 0, 0, 0}); f.push(Act{A_LOG_OFF, 0, 0, 0}); }
+#endif
 		if ((opt.mf & MF_COMPOSITE) && (opt.mf & MF_PHASE_REQ)) for (int a_i = 0, a = g_ids[0]; a_i < g_nids; ++a_i, a = g_ids[a_i < g_nids ? a_i : 0]) for (int b_i = 0, b = g_ids[0]; b_i < g_nids; ++b_i, b = g_ids[b_i < g_nids ? b_i : 0]) f.push(Act{A_CHANGE2, static_cast<uint8_t>(a), static_cast<uint8_t>(b), 0});   /* incl. the same destination twice */
 #if VX_PAYLOAD
 		if ((opt.mf & MF_COMPOSITE) && (opt.mf & MF_PHASE_REQ) && (opt.mf & MF_PAYLOAD)) for (int a_i = 0, a = g_ids[0]; a_i < g_nids; ++a_i, a = g_ids[a_i < g_nids ? a_i : 0]) for (int b_i = 0, b = g_ids[0]; b_i < g_nids; ++b_i, b = g_ids[b_i < g_nids ? b_i : 0]) { f.push(Act{A_CHANGEW_CHANGE, static_cast<uint8_t>(a), static_cast<uint8_t>(b), 1}); f.push(Act{A_CHANGE_CHANGEW, static_cast<uint8_t>(a), static_cast<uint8_t>(b), 2}); }
